@@ -106,7 +106,16 @@ class Env:
         shape = self.shape if shape is None else shape
         ranks = [int(self.rng.integers(1, 3)) for _ in shape]
         core, fm = gen.rand_ttensor_parts(self.rng, shape, ranks)
-        return ttb.ttensor(ttb.tensor(core), [np.array(f) for f in fm])
+        v = self.rng.random()
+        if v < 0.7:
+            return ttb.ttensor(ttb.tensor(core), [np.array(f) for f in fm])
+        # the other storage forms of a Tucker tensor: sparse core, and scipy sparse factor matrices
+        import scipy.sparse as sp
+
+        score = gen.mk_sptensor(ttb, np.where(np.abs(core) < 0.3, 0.0, core) if core.size > 1 else core)
+        if v < 0.85:
+            return ttb.ttensor(score, [np.array(f) for f in fm])
+        return ttb.ttensor(score if v < 0.93 else ttb.tensor(core), [sp.coo_matrix(np.array(f)) for f in fm])
 
     def sumtensor(self):
         return ttb.sumtensor([self.tensor(), self.ktensor()])
@@ -427,6 +436,17 @@ for _k in DATA_KINDS:
         def _b(e, kind_=kind_):
             d = int(e.rng.integers(0, e.N))
             return f"{kind_}.ttv", e.holder(kind_).ttv, (e.vecs()[d], d), {}
+
+        @entry(f"{kind_}.ttv(no mode selected)", ALLN)
+        def _b2(e, kind_=kind_):
+            # a product over no mode at all is the tensor itself -- as a new, independent object
+            form = int(e.rng.integers(0, 3))
+            none = np.array([], dtype=int)
+            if form == 0:
+                return f"{kind_}.ttv", e.holder(kind_).ttv, ([], none), {}
+            if form == 1:
+                return f"{kind_}.ttv", e.holder(kind_).ttv, (e.vecs(), none), {}
+            return f"{kind_}.ttv", e.holder(kind_).ttv, (e.vecs(),), {"exclude_dims": np.arange(e.N)}
 
         @entry(f"{kind_}.mttkrp", (2, 3, 4))
         def _c(e, kind_=kind_):
